@@ -7,8 +7,8 @@ from vlib.harness import ok, skip, viol
 
 PID = "C05"
 RULE = ("Program = [EQU defs] ORG o / [label defs] / <directive> / ZZN NOP / [defs after]. Directives: FCB and FDB lists of "
-        "1-64 elements, each a literal in any spelling, a negative number, an EQU symbol (defined before or after) or "
-        "a label; out-of-width elements planted in some cases; FCC with every printable non-blank delimiter and strings "
+        "1-64 elements, each a literal in any spelling, a negative number, an EQU symbol (defined before or after), "
+        "a label or a two-term constant expression; out-of-width elements planted in some cases; FCC with every printable non-blank delimiter and strings "
         "of printable ASCII of length 0-255 (letters only / single spaces / runs of spaces / leading or trailing space "
         "/ ';' / punctuation / the other quote), with and without a trailing '; comment'; RMB n on a boundary grid and "
         "uniform in 0..65535; EQU ORG SETDP NAM END (with and without operand) and INCLUDE of an empty file as no-byte "
@@ -36,7 +36,8 @@ _elem = st.one_of(
               st.integers(0, 7)),
     st.tuples(st.just("equ_before"), st.one_of(st.sampled_from(A.BOUNDARY), st.integers(-200, 70000)), st.integers(0, 7)),
     st.tuples(st.just("equ_after"), st.one_of(st.sampled_from(A.BOUNDARY), st.integers(-200, 70000)), st.integers(0, 7)),
-    st.tuples(st.just("label"), st.integers(0, 2), st.integers(0, 7)))
+    st.tuples(st.just("label"), st.integers(0, 2), st.integers(0, 7)),
+    st.tuples(st.just("expr"), st.one_of(st.integers(-300, 70000), st.sampled_from(A.BOUNDARY)), st.integers(0, 200)))
 
 
 def _mk_list(directive, elems, fit, comment):
@@ -46,6 +47,24 @@ def _mk_list(directive, elems, fit, comment):
     for kind, v, spi in elems:
         if kind == "label":
             out.append(dict(kind="label", idx=v))
+            continue
+        if kind == "expr":
+            # a two-term constant expression with value v: a+b, a-b or a*b over decimal / hex terms
+            v = max(-32768, min(65535, v))
+            if fit and not lo <= v <= hi:
+                v = lo + (v - lo) % (hi - lo + 1)
+            b = spi % 17
+            if spi % 3 == 0 and v - b >= 0:
+                text = "{}+{}".format(v - b, b)
+            elif spi % 3 == 1 and 0 <= v + b <= 65535:
+                text = "${:X}-{}".format(v + b, b)
+            elif v >= 0 and b > 1 and v % b == 0:
+                text = "{}*{}".format(v // b, b)
+            elif v >= 0:
+                text = "{}+0".format(v)
+            else:
+                text = "0-{}".format(-v)
+            out.append(dict(kind="expr", v=v, text=text))
             continue
         v = max(-32768, min(65535, v))
         if fit and not lo <= v <= hi:
@@ -142,7 +161,9 @@ def build(case):
                 out += b"\x00" * width           # patched below once the size is known
                 continue
             v = e["v"]
-            if e["kind"] == "lit":
+            if e["kind"] == "expr":
+                parts.append(e["text"])
+            elif e["kind"] == "lit":
                 parts.append(A.spell(v, e["sp"]))
             else:
                 name = "ZQ%d" % n_equ
